@@ -49,3 +49,40 @@ func (e *Env) joinFlagName() string {
 	}
 	return "join"
 }
+
+// auditCacheField: the field in which an IP caches its audit record - the field of type *AuditInfo of BaseIP
+// (or FileIP), whatever it is called.
+func (e *Env) auditCacheField() *types.Var {
+	ai := e.P.Named("scipipe", "AuditInfo")
+	for _, tn := range []string{"BaseIP", "FileIP"} {
+		nt := e.P.Named("scipipe", tn)
+		if nt == nil {
+			continue
+		}
+		st, ok := nt.Underlying().(*types.Struct)
+		if !ok {
+			continue
+		}
+		for i := 0; i < st.NumFields(); i++ {
+			if pt, ok := st.Field(i).Type().(*types.Pointer); ok && ai != nil && types.Identical(pt.Elem(), ai) {
+				return st.Field(i)
+			}
+		}
+	}
+	return e.P.FieldVar("scipipe", "BaseIP", "auditInfo")
+}
+
+// ipLockName: the name of FileIP's mutex field (its only sync.Mutex / *sync.Mutex / RWMutex field).
+func (e *Env) ipLockName() string {
+	if nt := e.P.Named("scipipe", "FileIP"); nt != nil {
+		if st, ok := nt.Underlying().(*types.Struct); ok {
+			for i := 0; i < st.NumFields(); i++ {
+				switch st.Field(i).Type().String() {
+				case "sync.Mutex", "*sync.Mutex", "sync.RWMutex", "*sync.RWMutex":
+					return st.Field(i).Name()
+				}
+			}
+		}
+	}
+	return "lock"
+}
